@@ -315,7 +315,7 @@ func newError(x *Exec, fr *frame, ins ssa.CallInstruction, c *ssa.CallCommon, ar
 // functions that neither write caller-visible memory nor have a server-state effect
 var noEffectPrefixes = []string{
 	"(*log/slog.Logger).", "log/slog.", "fmt.Sprint", "fmt.Errorf", "errors.", "strings.", "bytes.", "path.", "path/filepath.Join",
-	"path/filepath.Base", "path/filepath.Dir", "path/filepath.Clean", "path/filepath.Ext", "time.Now", "(time.Time).", "time.Since", "os.IsNotExist", "os.IsExist",
+	"path/filepath.Base", "path/filepath.Dir", "path/filepath.Clean", "path/filepath.Ext", "time.Now", "time.Date", "(time.Time).", "time.Since", "os.IsNotExist", "os.IsExist",
 	"(io/fs.FileMode).", "(io/fs.FileInfo).", "(os.FileInfo).", "(os.DirEntry).", "(os.FileMode).", "math/big.NewInt", "(*math/big.Int).Bit", "(*math/big.Int).Int64",
 	"strconv.", "unicode", "slices.", "sort.", "cmp.", "encoding/binary.", "(encoding/binary.", "math/rand.", "(*golang.org/x/text/encoding.Encoder).String",
 	"(*golang.org/x/text/encoding.Decoder).String", "golang.org/x/crypto/bcrypt.", "time.Sleep", "(*sync.Mutex).", "(*sync.RWMutex).",
